@@ -63,6 +63,12 @@ def reachesViaViews (h : Heap) (live : List Nat) : Nat → Nat → Nat → Bool
   | 0, _, _ => false
   | fuel + 1, b, t => (liveChildren h live b).any fun c => c == t || reachesViaViews h live fuel c t
 
+/-- the recorded (live) view children of `t` that still are views of `t`'s family; a child that was since
+disconnected — it became its own base — is skipped by `_duplicate_graph` -/
+def familyChildren (h : Heap) (live : List Nat) (t : Nat) : List Nat :=
+  let root := ((h.t t).base).getD t
+  (liveChildren h live t).filter fun c => (h.t c).base == some root
+
 /-- a node of the duplicating graph -/
 structure Node where
   tensor : Nat
@@ -79,7 +85,7 @@ def duplicate (fuel : Nat) (h : Heap) (live : List Nat) (basePh : Nat) (tensor :
   match fuel with
   | 0 => .ok (h, nodes)
   | fuel + 1 =>
-    let children := liveChildren h live tensor
+    let children := familyChildren h live tensor
     if children.isEmpty then .ok (h, nodes)
     else
       let r : Except (Err × Heap) (Heap × List Node) := children.foldlM (fun (acc : Heap × List Node) child =>
